@@ -275,3 +275,22 @@ Theorem C03_pad_is_xml_whitespace : forall prefix indent,
   (forall w, PureG28.pad_ok prefix indent w -> PureG28.xml_wsb w = true) /\ (forall k, PureG28.xml_wsb (PureG28.pdg prefix indent k) = true).
 Proof. exact PureG28.pad_is_xml_whitespace. Qed.
 Print Assumptions C03_pad_is_xml_whitespace.
+
+(* ---- AnyXmlIndent against AnyXml, translated code on both sides (the translated Map encoder, Map.Xml, Map.XmlIndent,
+   pretty.Indent / Outdent; validity check off): the indented encoding is the items of the compact one, each written as in the
+   compact encoding, with only pads (newlines, the prefix followed by copies of the indent) before them - or both return an
+   error (GenProofs/PureG38.v).  Layout oddities inside the pad language, observed on the Go code: the root tags of a LIST value
+   are written without the prefix; a single-entry Map member that follows a multi-entry Map member loses its newline (p.start is
+   not reset); members of a nested list sit one level deeper. *)
+From Mxj Require GenProofs.PureG38.
+
+Theorem C03_any_xml_indent_code_pads_any_xml_code : forall st, g_xmlCheckIsValid st = false ->
+  forall xm xmi dec fuel xm' xmi' v prefix indent tags,
+  vdepth v <= fuel -> text_dom (PureG15.state_opts st) v = true ->
+  let enc_code := PureG27.run_mm (PureG15.run_escapeChars st) (PureG28.run_Indent st) (PureG28.run_Outdent st) xm xmi st fuel in
+  let compact := fn_AnyXml (PureG27.run_xml enc_code dec st) enc_code xm' st v tags in
+  let indented := fn_AnyXmlIndent (PureG38.run_xmlindent enc_code dec st) enc_code (PureG28.run_Indent st) xmi' st v prefix indent tags in
+  (exists its out, compact = Ret (emit its, None) /\ indented = Ret (out, None) /\ PureG28.padded prefix indent its out) \/
+  (exists e b e' b', compact = Ret (b, Some e) /\ indented = Ret (b', Some e')).
+Proof. exact PureG38.any_xml_indent_code_pads_any_xml_code. Qed.
+Print Assumptions C03_any_xml_indent_code_pads_any_xml_code.
